@@ -1,6 +1,7 @@
 import clichecks
 import concchecks
 import depgraphs
+import diskchecks
 import histories
 import layouts
 import lspchecks
@@ -18,6 +19,7 @@ def warm_layouts():
     C.run_tlc("Conc", "Conc_c09.cfg", workers=12, timeout=3600)
     C.run_tlc("Conc", "Conc_c10.cfg", workers=12, timeout=3600)
     C.run_tlc("ImportWalk", "ImportWalk.cfg", workers=8, timeout=3600)
+    C.run_tlc("Discovery", "Discovery.cfg", workers=8, timeout=3600)
 
 
 CHECKS = {
@@ -31,6 +33,7 @@ CHECKS = {
     "C09": concchecks.check_c09,
     "C10": concchecks.check_c10,
     "C12": concchecks.check_c12,
+    "C13": diskchecks.check_c13,
     "C16": depgraphs.check_c16,
     "C19": lspchecks.check_c19,
     "C20": clichecks.check_c20,
